@@ -40,6 +40,17 @@ ObsMatches(rec) ==
          /\ vY.icu = IcuOf(rec.icu)
          /\ {<<a, MemVal(vY.c, a)>> : a \in vWr} = {<<rec.wr[i][1], rec.wr[i][2]>> : i \in 1 .. Len(rec.wr)}
 
+\* printed when an observation does not match (the step is then disabled): what differs
+ObsDiff(rec) ==
+    LET got == Pack(vY.c.r) IN
+    [line |-> vL, out |-> <<vY.c.out, rec.out>>,
+     regs |-> {<<FieldAt[i], i, got[i], rec.r[i]>> : i \in {j \in 1 .. Len(rec.r) : got[j] # rec.r[j]}},
+     lat |-> <<vY.c.lat, rec.lat>>, idle |-> <<vY.c.idle, rec.idle>>,
+     tm |-> IF vY.tm = <<TimerOf2(rec.tm[1]), TimerOf2(rec.tm[2])>> THEN "same" ELSE <<vY.tm, rec.tm>>,
+     icu |-> IF vY.icu = IcuOf(rec.icu) THEN "same" ELSE <<vY.icu.req, rec.icu.req, vY.icu.en, rec.icu.en>>,
+     wr |-> <<{<<a, MemVal(vY.c, a)>> : a \in vWr} \ {<<rec.wr[i][1], rec.wr[i][2]>> : i \in 1 .. Len(rec.wr)},
+              {<<rec.wr[i][1], rec.wr[i][2]>> : i \in 1 .. Len(rec.wr)} \ {<<a, MemVal(vY.c, a)>> : a \in vWr}>>]
+
 IsEv(e) == vL <= Len(Log) /\ Rec.e = e
 
 TNew  == /\ vPh = "idle" /\ IsEv("New") /\ FreshIsReset(Rec)
@@ -65,7 +76,7 @@ TStep  == /\ vPh = "run" /\ vK > 0 /\ vY.c.out = "ok"
           /\ StepApply(Cycles(vY, vWr, vK, Chunk))
           /\ UNCHANGED <<vL, vPh>>
 TEnd   == /\ vPh = "run" /\ (vK = 0 \/ vY.c.out # "ok")
-          /\ ObsMatches(Rec)
+          /\ (IF ObsMatches(Rec) THEN TRUE ELSE (PrintT(<<"MISMATCH", ObsDiff(Rec)>>) /\ FALSE))
           /\ vL' = vL + 1 /\ TLCSet(1, vL) /\ vPh' = "idle" /\ UNCHANGED <<vY, vK, vWr>>
 
 TraceInit == /\ vL = 1 /\ vK = 0 /\ vPh = "idle" /\ vWr = {} /\ TLCSet(1, 0)
